@@ -68,6 +68,7 @@ def parseHandle (t : String) : Option Nat :=
 structure St where
   w    : World
   hist : Lin.Hist
+  live : Bool := false      -- compare with the repaired index guard (`Watch.nextLive`), see `cfg guard-live`
 
 def bad (s : St) : St × String := (s, "bad-op")
 
@@ -107,9 +108,12 @@ def encOut (op : WOp) : WOut → String
 def stepWorld (s : St) (toks : List String) : Option (St × String) :=
   match toks with
   | ["new"] => some ({ s with w := World.init }, "ok")
+  | ["cfg", "guard-live", b] => do
+    let b ← decBool b
+    some ({ s with live := b }, "ok")
   | _ => do
     let op ← parseOp toks
-    let (w', out) := s.w.step op
+    let (w', out) := s.w.step op s.live
     some ({ s with w := w' }, encOut op out)
 
 /-! ### concurrent histories (see CV.ResLin) -/
